@@ -75,7 +75,10 @@ static std::vector<RCP<const Number>> value_pool()
 {
     static const int nums[][2] = {{0, 1},  {1, 1},  {-1, 1}, {2, 1},  {-2, 1}, {3, 1},  {-3, 1}, {1, 2}, {-1, 2},
                                   {3, 2},  {-3, 2}, {1, 3},  {-2, 3}, {5, 1},  {-5, 1}, {7, 2},  {-7, 2}, {4, 1},
-                                  {-4, 1}, {6, 1},  {5, 2},  {-5, 2}, {1, 4},  {-1, 4}, {8, 1},  {-8, 1}};
+                                  {-4, 1}, {6, 1},  {5, 2},  {-5, 2}, {1, 4},  {-1, 4}, {8, 1},  {-8, 1},
+                                  // magnitudes beyond e**pi = 23.1 and below e**-pi: Im(k)*log(x) leaves (-pi, pi], which
+                                  // is where (x**k)**n and x**(k*n) part for a non-real k
+                                  {30, 1}, {100, 1}, {-30, 1}, {1, 30}, {1, 100}};
     std::vector<RCP<const Number>> v;
     for (auto &p : nums)
         v.push_back(Rational::from_two_ints(*integer(p[0]), *integer(p[1])));
@@ -157,6 +160,28 @@ static void run_oracle(const std::string &cmd, const RCP<const Basic> &e, const 
         for (size_t i = 0; i < symv.size(); i++) {
             const auto &c = cands[i];
             RCP<const Number> v = t == 0 ? c[0] : t < 4 ? c[(t * 5 + i) % c.size()] : c[r.below(c.size())];
+            if (t >= 4 && t <= 7) {
+                // rounds 4-7: the largest, second largest, smallest positive and most negative admissible real value
+                std::vector<std::pair<double, size_t>> reals;
+                for (size_t j = 0; j < c.size(); j++)
+                    if (!is_a<Complex>(*c[j]))
+                        reals.push_back({eval_double(*c[j]), j});
+                std::sort(reals.begin(), reals.end());
+                if (!reals.empty()) {
+                    size_t n = reals.size();
+                    if (t == 4)
+                        v = c[reals[n - 1].second];
+                    else if (t == 5)
+                        v = c[reals[n >= 2 ? n - 2 : 0].second];
+                    else if (t == 6) {
+                        size_t j = 0;
+                        while (j + 1 < n && reals[j].first <= 0)
+                            j++;
+                        v = c[reals[j].second];
+                    } else
+                        v = c[reals[0].second];
+                }
+            }
             if (is_a<Complex>(*v))
                 all_real = false;
             m[symv[i]] = v;
@@ -353,6 +378,78 @@ static RCP<const Basic> arith(Rng &r)
     }
 }
 
+// (x**k)**n with a non-real or symbolic inner exponent k and a non-integer outer exponent n.  The Pow-of-Pow rule
+// must leave these alone: for a non-real k the two sides differ as soon as Im(k)*log(x) leaves (-pi, pi]
+// (x > e**pi = 23.1 for k = I), for a symbolic k at every non-real value of the symbol.
+static RCP<const Basic> complex_nested_pow(Rng &r, int basesym)
+{
+    RCP<const Number> I_ = Complex::from_two_nums(*integer(0), *integer(1));
+    RCP<const Basic> k;
+    switch (r.below(8)) {
+        case 0:
+            k = I_;
+            break;
+        case 1:
+            k = Complex::from_two_nums(*integer(1), *integer(1));
+            break;
+        case 2:
+            k = Complex::from_mpq(rational_class(0), rational_class(1, 2));
+            break;
+        case 3:
+            k = Complex::from_two_nums(*integer(0), *integer(r.coin() ? 2 : -1));
+            break;
+        case 4:
+            k = Complex::from_two_nums(*integer(r.range(-2, 2)), *integer(r.range(1, 3)));
+            break;
+        case 5:
+            k = S((basesym + 1) % 3);
+            break;
+        case 6:
+            k = mul(I_, S((basesym + 1) % 3));
+            break;
+        default:
+            k = add(S((basesym + 2) % 3), I_);
+            break;
+    }
+    static const int outer[][2] = {{1, 2}, {1, 3}, {3, 2}, {-1, 2}, {2, 3}, {5, 2}, {-3, 4}, {1, 4}};
+    auto &o = outer[r.below(8)];
+    return pow(pow(S(basesym), k), Rational::from_two_ints(*integer(o[0]), *integer(o[1])));
+}
+
+// products / quotients that contain a trigonometric function and the reciprocal function of the same argument
+// (all six ordered pairs), with powers and extra factors: SimplifyVisitor::bvisit(Mul) rewrites 1/csc(u) to sin(u)
+// and has to merge it with a sin(u) that is already a factor
+static RCP<const Basic> trig_pair_product(Rng &r)
+{
+    RCP<const Basic> u = r.coin(2, 3) ? rcp_static_cast<const Basic>(S((int)r.below(3))) : arith(r);
+    if (is_a_Number(*u))
+        u = S((int)r.below(3));
+    unsigned pr = r.below(3);
+    RCP<const Basic> f = pr == 0 ? sin(u) : pr == 1 ? cos(u) : tan(u);
+    RCP<const Basic> g = pr == 0 ? csc(u) : pr == 1 ? sec(u) : cot(u);
+    if (r.coin(1, 4))
+        std::swap(f, g); // the other direction of the pair: g(u)**a / f(u)
+    long a = r.range(1, 3);
+    long b = r.coin(3, 4) ? -1 : r.range(-3, 2);
+    if (b == 0)
+        b = -1;
+    vec_basic fac{pow(f, integer(a)), pow(g, integer(b))};
+    unsigned extra = r.below(5);
+    if (extra == 0)
+        fac.push_back(coef(r));
+    else if (extra == 1)
+        fac.push_back(mul(coef(r), S((int)r.below(3))));
+    else if (extra == 2)
+        fac.push_back(pow(S((int)r.below(3)), integer(r.range(-2, 2) == 0 ? 2 : r.range(1, 2))));
+    else if (extra == 3) {
+        // a second reciprocal pair with another argument
+        RCP<const Basic> w = S((int)r.below(3));
+        fac.push_back(r.coin() ? cos(w) : sin(w));
+        fac.push_back(pow(r.coin() ? sec(w) : csc(w), integer(-1)));
+    }
+    return mul(fac);
+}
+
 // one refinable / simplifiable piece
 static RCP<const Basic> piece(Rng &r, int depth)
 {
@@ -437,13 +534,37 @@ void hx_gen(Rng &rng, const std::string &tier)
     for (int i = 0; i < n; i++) {
         vec_basic stmts;
         RCP<const Basic> e;
-        std::string tag;
+        std::string tag, forced_cmd;
         try {
             for (int s = 0; s < 3; s++)
                 if (rng.coin(5, 6))
                     rand_facts(rng, s, stmts);
             unsigned k = rng.below(100);
-            if (k < 50) {
+            if (k < 8) {
+                // nested power with a non-real / symbolic inner exponent over a (mostly) positive symbol
+                int bs = (int)rng.below(3);
+                stmts.clear();
+                for (int s = 0; s < 3; s++)
+                    if (s != bs && rng.coin(2, 3))
+                        rand_facts(rng, s, stmts);
+                if (rng.coin(5, 6))
+                    stmts.push_back(Gt(S(bs), integer(0)));
+                else
+                    stmts.push_back(reals()->contains(S(bs)));
+                e = complex_nested_pow(rng, bs);
+                unsigned ctx = rng.below(4);
+                if (ctx == 0)
+                    e = add(mul(coef(rng), e), arith(rng));
+                else if (ctx == 1)
+                    e = mul(e, add(arith(rng), integer(7)));
+                tag = "nested-pow-complex-inner-exp";
+            } else if (k < 16) {
+                e = trig_pair_product(rng);
+                if (rng.coin(1, 4))
+                    e = add(e, arith(rng));
+                tag = "trig-reciprocal-pair-product";
+                forced_cmd = rng.coin(5, 6) ? "simplify" : "refine";
+            } else if (k < 55) {
                 e = piece(rng, 1);
                 tag = "piece";
             } else if (k < 70) {
@@ -467,6 +588,8 @@ void hx_gen(Rng &rng, const std::string &tier)
             continue;
         }
         std::string cmd = rng.coin(2, 3) ? "refine" : "simplify";
+        if (!forced_cmd.empty())
+            cmd = forced_cmd;
         std::string ed = vsexp::dump(*e);
         if (ed.find("(oo") != std::string::npos || ed.find("nan") != std::string::npos)
             continue; // a division by zero happened while building the input
